@@ -681,6 +681,7 @@ static void l_exec(const plan_t *p)
 
     simheap_reset(&hc, p->cfg[CF_JUNK]);
     simheap_far((int)p->cfg[CF_FAR]);
+    simheap_far_nodeoff((p->cfg[CF_JUNK] & 1) ? soff((int)(p->cfg[CF_HET] >> 4 & 1)) : doff((int)(p->cfg[CF_HET] & 1)));      /* (mode 3: the node member of list 0) */
     nd = (int)p->cfg[CF_ND]; ns = (int)p->cfg[CF_NS];
     if (nd < 1) nd = 1; if (nd > MAXL) nd = MAXL;
     if (ns < 1) ns = 1; if (ns > MAXL) ns = MAXL;
